@@ -29,7 +29,8 @@ func round5Scenarios() []func() []monFailure {
 	return []func() []monFailure{scenOwnerAfterRolledBackRegistration, scenParamsAfterFailedProposal, scenRecreateOverExpiredStream, scenPartialUnlockWithOtherHolder, scenSignerListWithBlanks,
 		scenRecheckAfterFeeChange, scenReregisterSameMoniker, scenSameBlockCancel, scenManyDenominationsSupply, scenOnlyRegistryMsgsUnlock,
 		scenStartingIdsAcrossExport, scenZeroHeightExportInMintWindow, scenEmptiedAccountSurvivesExport, scenFeeRuleOverLayouts, scenQueuesLongerThanAPage,
-		scenAcceptAndRejectThresholdsBothMet, scenUpdateAndTopUpSameBlock, scenStaleHeightsInEveryWrapping}
+		scenAcceptAndRejectThresholdsBothMet, scenUpdateAndTopUpSameBlock, scenStaleHeightsInEveryWrapping,
+		scenWhitelistRemovalInAcceptanceBlock, scenSameMonikerTwiceInOneBlock, scenForgedRecordBesideOwnRecord, scenPurchaseAfterMaxRaised}
 }
 
 // C09 / C13: a transaction [register; record on the id it is about to receive; a failing message] is rolled back as a
@@ -1106,6 +1107,227 @@ func scenStaleHeightsInEveryWrapping() []monFailure {
 		if got := snap(); got != want {
 			s.fail("C07", 0, fmt.Sprintf("%s (code %d) changed the WRKChain's records: before %s, after %s", t.what, r.Code, want, got))
 			return s.failures
+		}
+	}
+	return s.failures
+}
+
+// C04 / C02 / C03 (round 9): the purchaser leaves the whitelist in the very block whose BeginBlock accepted its order.
+// Whatever the policy, an order that ends up COMPLETED is minted and locked: locked + spent of the purchaser equals the
+// sum of its completed orders and the supply grew by them.
+func scenWhitelistRemovalInAcceptanceBlock() []monFailure {
+	s := &scen{c: newChain(fixedCfg()), name: "whitelist-removal-in-the-acceptance-block"}
+	defer s.c.close()
+	c := s.c
+	ek := func() entkeeper.Keeper { return c.app.EnterpriseKeeper }
+	s.blockStart(5 * time.Second)
+	s.tx(4, nundCoins(0), c.mEntRaise(4, "nund", sdk.NewInt(1000)).m)
+	s.tx(0, nundCoins(0), c.mEntDecide(0, 1, 2).m)
+	s.tx(1, nundCoins(0), c.mEntDecide(1, 1, 2).m)
+	s.blockEnd()
+	supply := c.app.BankKeeper.GetSupply(c.committedCtx(), "nund").Amount
+	s.blockStart(5 * time.Second) // the tally accepts order 1 ...
+	if po, _ := ek().GetPurchaseOrder(c.ctx(), 1); po.Status != enttypes.StatusAccepted {
+		s.blockEnd()
+		return s.failures
+	}
+	s.tx(0, nundCoins(0), c.mEntWhitelist(0, 4, 2).m) // ... and in the same block the purchaser is removed from the whitelist
+	s.blockEnd()
+	for i := 0; i < 2; i++ {
+		if pv := s.blockStart(5 * time.Second); pv != nil {
+			s.fail("C14", 0, fmt.Sprintf("BeginBlock panicked after the purchaser of an accepted order left the whitelist: %v", pv))
+			return s.failures
+		}
+		s.blockEnd()
+	}
+	ctx := c.committedCtx()
+	po, _ := ek().GetPurchaseOrder(ctx, 1)
+	l := ek().GetLockedUndAmountForAccount(ctx, c.addrOf(4)).Amount
+	sp := ek().GetSpentEFUNDAmountForAccount(ctx, c.addrOf(4)).Amount
+	grew := c.app.BankKeeper.GetSupply(ctx, "nund").Amount.Sub(supply)
+	done := sdk.ZeroInt()
+	if po.Status == enttypes.StatusCompleted {
+		done = po.Amount.Amount
+	}
+	if !l.Add(sp).Equal(done) {
+		for _, prop := range []string{"C04", "C03"} {
+			s.fail(prop, 0, fmt.Sprintf("the purchaser left the whitelist in the block that accepted its order of 1000nund; the order is now %s, the purchaser holds %s locked + %s spent eFUND, its completed orders sum to %s", po.Status, l, sp, done))
+		}
+	}
+	if !grew.Equal(done) {
+		s.fail("C02", 0, fmt.Sprintf("the purchaser left the whitelist in the block that accepted its order; the order is now %s, completed orders sum to %snund, the supply grew by %snund", po.Status, done, grew))
+	}
+	return s.failures
+}
+
+// C09 (round 9): one owner registers twice with the same moniker (and genesis hash) in ONE block - as two transactions and
+// as one two-message transaction: every successful registration gets its own fresh id and is stored as submitted.
+func scenSameMonikerTwiceInOneBlock() []monFailure {
+	s := &scen{c: newChain(fixedCfg()), name: "same-moniker-twice-in-one-block"}
+	defer s.c.close()
+	c := s.c
+	for _, wrk := range []bool{true, false} {
+		mod := "BEACON"
+		if wrk {
+			mod = "WRKChain"
+		}
+		next := func() uint64 {
+			if wrk {
+				n, _ := c.app.WrkchainKeeper.GetHighestWrkChainID(c.ctx())
+				return n
+			}
+			n, _ := c.app.BeaconKeeper.GetHighestBeaconID(c.ctx())
+			return n
+		}
+		nameOf := func(id uint64) (string, bool) {
+			if wrk {
+				w, ok := c.app.WrkchainKeeper.GetWrkChain(c.ctx(), id)
+				return w.Name, ok
+			}
+			b, ok := c.app.BeaconKeeper.GetBeacon(c.ctx(), id)
+			return b.Name, ok
+		}
+		s.blockStart(5 * time.Second)
+		n0 := next()
+		r1 := s.tx(2, nundCoins(1000), c.mRegRegister(wrk, 2, "twin", "first name", "gen", "t").m)
+		r2 := s.tx(2, nundCoins(1000), c.mRegRegister(wrk, 2, "twin", "second name", "gen", "t2").m)
+		r3 := s.tx(2, nundCoins(2000), c.mRegRegister(wrk, 2, "twin3", "third name", "gen", "t").m, c.mRegRegister(wrk, 2, "twin3", "fourth name", "gen", "t").m)
+		ok := 0
+		var names []string
+		for _, r := range []txResult{r1, r2} {
+			if r.Code == 0 {
+				ok++
+			}
+		}
+		if r3.Code == 0 {
+			ok += 2
+		}
+		if r1.Code == 0 {
+			names = append(names, "first name")
+		}
+		if r2.Code == 0 {
+			names = append(names, "second name")
+		}
+		if r3.Code == 0 {
+			names = append(names, "third name", "fourth name")
+		}
+		if got := next() - n0; got != uint64(ok) {
+			s.fail("C09", 0, fmt.Sprintf("%s: %d registrations by one owner with a repeated moniker succeeded in one block; the id counter advanced by %d", mod, ok, got))
+		}
+		for i, want := range names {
+			if got, found := nameOf(n0 + uint64(i)); !found || got != want {
+				s.fail("C09", 0, fmt.Sprintf("%s: the %d. successful registration of the block (name %q, moniker repeated) is not stored under id %d (found %v, name %q)", mod, i+1, want, n0+uint64(i), found, got))
+			}
+		}
+		s.blockEnd()
+	}
+	return s.failures
+}
+
+// C13 / C07 (round 9): account 3 owns WRKChain 2 and BEACON 2, account 2 owns WRKChain 1 and BEACON 1.  In ONE transaction
+// account 3 records on its own registration and, nested in MsgExec (grantee = itself), records / buys storage on account
+// 2's naming itself as owner.  The victim's registration must not change.
+func scenForgedRecordBesideOwnRecord() []monFailure {
+	s := &scen{c: newChain(fixedCfg()), name: "forged-record-beside-own-record"}
+	defer s.c.close()
+	c := s.c
+	s.blockStart(5 * time.Second)
+	for _, wrk := range []bool{true, false} {
+		s.tx(2, nundCoins(1000), c.mRegRegister(wrk, 2, "victim", "n", "g", "t").m)
+		s.tx(3, nundCoins(1000), c.mRegRegister(wrk, 3, "attacker", "n", "g", "t").m)
+	}
+	s.tx(2, nundCoins(10), c.mRegRecord(true, 2, 1, 5, []string{"v5"}).m)
+	s.tx(2, nundCoins(10), c.mRegRecord(false, 2, 1, uint64(c.now.Unix()), []string{"v1"}).m)
+	s.blockEnd()
+	snap := func() string {
+		ctx := c.committedCtx()
+		w, _ := c.app.WrkchainKeeper.GetWrkChain(ctx, 1)
+		b, _ := c.app.BeaconKeeper.GetBeacon(ctx, 1)
+		wl, _ := c.app.WrkchainKeeper.GetWrkChainStorageLimit(ctx, 1)
+		bl, _ := c.app.BeaconKeeper.GetBeaconStorageLimit(ctx, 1)
+		return w.String() + " | " + b.String() + " | " + wl.String() + " | " + bl.String()
+	}
+	want := snap()
+	if !strings.Contains(want, "victim") {
+		return s.failures
+	}
+	h := uint64(10)
+	for _, wrk := range []bool{true, false} {
+		own := func() mmsg {
+			h++
+			if wrk {
+				return c.mRegRecord(true, 3, 2, h, []string{"a"})
+			}
+			return c.mRegRecord(false, 3, 2, uint64(c.now.Unix()), []string{"a"})
+		}
+		forgedRec := c.mRegRecord(wrk, 3, 1, 1<<63, []string{"forged"})
+		forgedBuy := c.mRegPurchase(wrk, 3, 1, 1)
+		for _, tc := range []struct {
+			what string
+			fee  int64
+			msgs []mmsg
+		}{
+			{"[own record, MsgExec{record on the victim's}]", 10, []mmsg{own(), c.mExec(3, []mmsg{forgedRec})}},
+			{"[MsgExec{record on the victim's}, own record]", 10, []mmsg{c.mExec(3, []mmsg{forgedRec}), own()}},
+			{"[own record, MsgExec{purchase for the victim's}]", 10, []mmsg{own(), c.mExec(3, []mmsg{forgedBuy})}},
+			{"[own record, record on the victim's] at top level", 20, []mmsg{own(), forgedRec}},
+		} {
+			var msgs []sdk.Msg
+			for _, m := range tc.msgs {
+				msgs = append(msgs, m.m)
+			}
+			s.blockStart(5 * time.Second)
+			r := s.tx(3, nundCoins(tc.fee), msgs...)
+			s.blockEnd()
+			if got := snap(); got != want {
+				for _, prop := range []string{"C13", "C09"} {
+					s.fail(prop, 0, fmt.Sprintf("a transaction signed by account 3 only, %s (wrkchain=%v, code %d), changed account 2's registration: before %.300s, after %.300s", tc.what, wrk, r.Code, want, got))
+				}
+				return s.failures
+			}
+		}
+	}
+	return s.failures
+}
+
+// C16 (round 9): governance raises MaxStorageLimit far above its genesis default (to 2,000,000); a purchase of 700,000
+// slots - legal under the new limit, above the old default of 600,000 - at the exact fee must be admitted by CheckTx
+// and executed, and one above the new room must be refused.
+func scenPurchaseAfterMaxRaised() []monFailure {
+	s := &scen{c: newChain(fixedCfg()), name: "purchase-after-the-maximum-was-raised"}
+	defer s.c.close()
+	c := s.c
+	gov := authtypes.NewModuleAddress("gov").String()
+	s.blockStart(5 * time.Second)
+	s.tx(2, nundCoins(1000), c.mRegRegister(true, 2, "w", "n", "g", "t").m)
+	s.tx(2, nundCoins(1000), c.mRegRegister(false, 2, "b", "n", "", "").m)
+	s.blockEnd()
+	wNew := wrktypes.NewParams(1000, 10, 1, "nund", 2, 2_000_000)
+	bNew := bcntypes.NewParams(1000, 10, 1, "nund", 2, 2_000_000)
+	var pid uint64
+	prop, found := s.govPass(&pid, &wrktypes.MsgUpdateParams{Authority: gov, Params: wNew}, &bcntypes.MsgUpdateParams{Authority: gov, Params: bNew})
+	if !found || prop.Status != govv1.StatusPassed {
+		return s.failures
+	}
+	for _, wrk := range []bool{true, false} {
+		ts := txSpec{msgs: []sdk.Msg{c.mRegPurchase(wrk, 2, 1, 700_000).m}, fee: nundCoins(700_000), signers: []acct{c.accts[2]}}
+		if r, _ := c.check(ts); r.Code != 0 {
+			for _, p := range []string{"C16", "C08"} {
+				s.fail(p, 0, fmt.Sprintf("after governance raised MaxStorageLimit to 2000000, CheckTx refuses a purchase of 700000 slots (wrkchain=%v) at the exact fee: %s", wrk, firstLine(r.Log)))
+			}
+			continue
+		}
+		s.blockStart(5 * time.Second)
+		r := s.tx(2, nundCoins(700_000), ts.msgs...)
+		s.blockEnd()
+		if r.Code != 0 {
+			for _, p := range []string{"C16", "C08"} {
+				s.fail(p, 0, fmt.Sprintf("after governance raised MaxStorageLimit to 2000000, a purchase of 700000 slots (wrkchain=%v) fails: %s", wrk, firstLine(r.Log)))
+			}
+		}
+		over := txSpec{msgs: []sdk.Msg{c.mRegPurchase(wrk, 2, 1, 1_400_000).m}, fee: nundCoins(1_400_000), signers: []acct{c.accts[2]}}
+		if r, _ := c.check(over); r.Code == 0 {
+			s.fail("C16", 0, fmt.Sprintf("with a limit of 700002 and a maximum of 2000000, CheckTx admits a purchase of 1400000 more slots (wrkchain=%v)", wrk))
 		}
 	}
 	return s.failures
